@@ -20,7 +20,7 @@ fn plain(v: &V) -> Vec<u8> { let mut s = Src::replay(&[]); let mut p = Printer::
 
 #[derive(Debug)]
 struct Case {
-    v: V, position: u8, n_members: usize, trailing_ws: u8, pad_first: usize, header_tight: bool, filters: Vec<u8>, filter_tape: Vec<u32>,
+    v: V, position: u8, n_members: usize, trailing_ws: u8, pad_first: usize, header_tight: bool, long_run: bool, filters: Vec<u8>, filter_tape: Vec<u32>,
     // stream part
     stream_data: Vec<u8>, length_mode: u8,
 }
@@ -44,13 +44,15 @@ fn gen_case(s: &mut Src) -> Case {
     let trailing_ws = match s.alt(2, &["trailing_ws", "no_trailing_ws", "members_not_separated"]) { 0 => 0u8, 1 => 1, _ => 2 };
     let pad_first = if s.alt(3, &["first_tight", "first_padded"]) == 1 { 1 + s.draw(3) as usize } else { 0 };
     let header_tight = s.alt(3, &["header_then_space", "header_touches_first_object"]) == 1;
+    // one more member in front: a string of 200 equal bytes (a maximal run for RunLength, a long match for LZW/Flate)
+    let long_run = s.alt(3, &["members_short", "member_with_long_run"]) == 1;
     let nf = s.alt(2, &["objstm_unfiltered", "objstm_one_filter", "objstm_two_filters"]);
     let mut filters = Vec::new();
     for _ in 0..nf { let k = s.draw(5) as u8; s.label(["f_AHx", "f_A85", "f_RL", "f_LZW", "f_Flate"][k as usize]); filters.push(k); }
     let filter_tape: Vec<u32> = (0..24).map(|_| s.draw(64)).collect();
     let stream_data = s.bytes(50);
     let length_mode = s.alt(2, &["length_direct", "length_ref_direct", "length_ref_compressed"]) as u8;
-    Case { v, position, n_members, trailing_ws, pad_first, header_tight, filters, filter_tape, stream_data, length_mode }
+    Case { v, position, n_members, trailing_ws, pad_first, header_tight, long_run, filters, filter_tape, stream_data, length_mode }
 }
 
 fn encode_chain(filters: &[u8], tape: &[u32], data: &[u8]) -> (Vec<(Vec<u8>, Obj)>, Vec<u8>) {
@@ -87,6 +89,7 @@ fn build(c: &Case) -> (Vec<u8>, Vec<u8>) {
             if i == idx { members.push((5, val.clone())); }
             else { members.push((20 + i as u32, if (i % 2 == 0) != c.header_tight { Obj::Int(i as i64 * 7) } else { mkpdf::dict(vec![("F", Obj::Int(i as i64))]) })); }
         }
+        if c.long_run { members.insert(0, (19, Obj::Str(vec![b'a'; 200]))); }
         if c.length_mode == 2 { members.insert(0, (11, Obj::Int(c.stream_data.len() as i64))); }
         let tape = RefCell::new(c.filter_tape.clone());
         let enc = |d: &[u8]| encode_chain(&c.filters, &tape.borrow(), d);
